@@ -153,6 +153,18 @@ def _cblist(ctx, cfg):
         except TypeError:
             ctx.holds("CallbackList refuses non-callbacks (%s)" % bad, True)
     ctx.holds("CallbackList + CallbackList concatenates", [c.tag for c in (CallbackList([Rec(7)]) + CallbackList([Rec(8)]))] == [7, 8])
+    # the receivers of a run are fixed when the list is built: the caller's own list object is neither kept nor changed
+    for form in ("list", "tuple", "generator"):
+        mine = [Rec(10), Rec(11)]
+        given = mine if form == "list" else tuple(mine) if form == "tuple" else (c for c in mine)
+        cl2 = CallbackList(given)
+        cl2.append(Rec(12))
+        ctx.holds("CallbackList/the caller's %s is not changed by appending to the CallbackList" % form, [c.tag for c in mine] == [10, 11])
+        mine.append(Rec(13))
+        del mine[0]
+        del log[:]
+        cl2.on_epoch_end(St(False), 1)
+        ctx.holds("CallbackList/later edits of the caller's %s do not change who receives the events" % form, [x[0] for x in log] == [10, 11, 12], str([x[0] for x in log]))
 
 
 def _lambda_timer(ctx, cfg):
